@@ -88,15 +88,17 @@ def h_fit_reference(c):
 
 
 def h_fpsearch(c):
+    """a sequence of FPSearch().generate calls executed in order in one process"""
     from pyqsp.phases import FPSearch
-    kw = {}
-    if "delta" in c:
-        kw["delta"] = dec(c["delta"])
-    if "gamma" in c:
-        kw["gamma"] = dec(c["gamma"])
     out = []
-    for d in c["ds"]:
-        out.append(enc(numpy.asarray(FPSearch().generate(int(d), **kw), dtype=float)))
+    for call in c["calls"]:
+        kw = {}
+        for k in ("delta", "gamma"):
+            if k in call:
+                kw[k] = dec(call[k])
+        if call.get("return_alpha"):
+            kw["return_alpha"] = True
+        out.append(enc(numpy.asarray(FPSearch().generate(call["d"], **kw), dtype=float)))
     return out
 
 
